@@ -66,6 +66,13 @@ def dealias(fn_node):
             t = table_of(n.value)
             if t and t[0] in TABLES and t[1] is not None and isinstance(n.value, ast.Subscript):
                 alias[n.targets[0].id] = n.value
+            v = n.value
+            if isinstance(v, ast.Call) and isinstance(v.func, ast.Attribute) and v.func.attr == 'setdefault' and len(v.args) == 2 \
+                    and isinstance(v.args[1], ast.List) and not v.args[1].elts:
+                tt = table_of(v.func.value)
+                if tt and tt[0] in TABLES and tt[1] is None:
+                    # lst = self.<table>.setdefault(k, []) : the rule list of key k (an empty list is created when there is none)
+                    alias[n.targets[0].id] = ast.copy_location(ast.Subscript(value=copy.deepcopy(v.func.value), slice=copy.deepcopy(v.args[0]), ctx=ast.Load()), v)
 
     class R(ast.NodeTransformer):
         def visit_Name(self, n):
@@ -73,6 +80,22 @@ def dealias(fn_node):
                 return ast.copy_location(copy.deepcopy(alias[n.id]), n)
             return n
     return R().visit(fn_node) if alias else fn_node
+
+
+def _is_eq_membership(text, el, lst):
+    """the fact text is `any(x == el for x in lst)` (membership by equality, spelled out)"""
+    try:
+        e = ast.parse(text, mode='eval').body
+    except SyntaxError:
+        return False
+    if not (isinstance(e, ast.Call) and isinstance(e.func, ast.Name) and e.func.id == 'any' and len(e.args) == 1 and isinstance(e.args[0], (ast.GeneratorExp, ast.ListComp))):
+        return False
+    g = e.args[0]
+    if len(g.generators) != 1 or g.generators[0].ifs or not isinstance(g.generators[0].target, ast.Name) or src(g.generators[0].iter) != lst:
+        return False
+    x = g.generators[0].target.id
+    c = g.elt
+    return isinstance(c, ast.Compare) and len(c.ops) == 1 and isinstance(c.ops[0], ast.Eq) and {src(c.left), src(c.comparators[0])} == {x, el}
 
 
 def may_return_none(fi):
@@ -186,13 +209,17 @@ class Checker:
 
                 def user_call(s, call, facts, user):
                     f = call.func
+                    if isinstance(f, ast.Attribute) and f.attr == 'setdefault' and len(call.args) == 2 and isinstance(call.args[1], ast.List) \
+                            and not call.args[1].elts:
+                        return user            # an empty rule list for a key holds no rule: not a change of the rule set
                     if isinstance(f, ast.Attribute) and f.attr in MUTATORS:
                         t = table_of(f.value)
                         if t and t[0] in RULE_TABLES:
                             lst = src(f.value)
                             if f.attr == 'append' and call.args:
                                 el = src(call.args[0])
-                                ok = FactDomain.has(facts, False, '%s in %s' % (el, lst))
+                                ok = FactDomain.has(facts, False, '%s in %s' % (el, lst)) or any(
+                                    tr is False and _is_eq_membership(tx, el, lst) for (tr, tx, _n) in facts)
                                 msg = 'append of %s to %s not dominated by `%s not in %s` (duplicate rule => duplicate delivery)' % (el, lst, el, lst)
                             elif f.attr == 'remove' and call.args:
                                 el = src(call.args[0])
